@@ -137,5 +137,14 @@ Prop_C05 ==
               /\ cfg.rhs \in {"arr", "nd"} =>
                     PSumOver(LAMBDA full : res.val[full], Region(X0, cfg.key)) = Total(GenArr(2, cfg.yd))
 
+\* C04: re-storing the array (and an array source) in the canonical dimension order changes no entry
+CanonOrder(ds) == SubSeqBy(MCCanon, Range(ds))
+Prop_C04 ==
+    Done => LET c0 == [cfg EXCEPT !.xd = CanonOrder(cfg.xd)]
+                r0 == Apply(c0) IN
+            IF res = Error \/ r0 = Error THEN (res = Error) = (r0 = Error)
+            ELSE /\ Range(res.dims) = Range(r0.dims)
+                 /\ \A lab \in DOMAIN res.val : res.val[lab] = r0.val[lab]
+
 TypeOK == phase \in {"cfg", "done"}
 =============================================================================
